@@ -15,8 +15,11 @@ var usqFields = map[string]string{"queryDescription": "description", "searchText
 	"endTime": "endTime", "metricsQueryParams": "metricsQueryParams"}
 var usqFieldNames = []string{"queryDescription", "searchText", "indexName", "filterTab", "queryLanguage", "dataSource", "startTime", "endTime", "metricsQueryParams"}
 
-func genUsqOp(t *rapid.T, names []string) storeOp {
-	k := rapid.IntRange(0, 99).Draw(t, "usqOp")
+func genUsqOp(t *rapid.T, names []string, early bool) storeOp {
+	k := pct(t, "usqOp")
+	if early {
+		k = 0
+	}
 	switch {
 	case k < 55:
 		f := map[string]string{}
@@ -114,12 +117,12 @@ func (s *usqStore) apply(d *storeDriver, op *storeOp) error {
 					return d.violation("saved-query search for %s (tenant %d) returned %s which is not stored for this tenant", short(op.Name), op.T, short(k))
 				}
 				if canon(mv) != canon(v) {
-					return d.violation("saved-query search for %s (tenant %d) returned %s = %s, last written %s", short(op.Name), op.T, short(k), canon(v), canon(mv))
+					return d.violation("saved-query search for %s (tenant %d) returned %s = %s, last written %s", short(op.Name), op.T, short(k), brief(v), brief(mv))
 				}
 			}
 			if has {
 				if _, ok := got[op.Name]; !ok {
-					return d.violation("saved-query search for the exact name %s (tenant %d) does not return it; last written %s", short(op.Name), op.T, canon(want))
+					return d.violation("saved-query search for the exact name %s (tenant %d) does not return it; last written %s", short(op.Name), op.T, brief(want))
 				}
 			}
 		} else if has {
@@ -156,15 +159,15 @@ func diffMaps(kind string, t int64, want, got map[string]map[string]string, d *s
 	for k, wv := range want {
 		gv, ok := got[k]
 		if !ok {
-			return d.violation("%s of tenant %d: %s is missing from the list; last written %s; listed names %v", kind, t, short(k), canon(wv), keysShort(got))
+			return d.violation("%s of tenant %d: %s is missing from the list; last written %s; listed names %v", kind, t, short(k), brief(wv), keysShort(got))
 		}
 		if canon(gv) != canon(wv) {
-			return d.violation("%s of tenant %d: %s reads %s, last written %s", kind, t, short(k), canon(gv), canon(wv))
+			return d.violation("%s of tenant %d: %s reads %s, last written %s", kind, t, short(k), brief(gv), brief(wv))
 		}
 	}
 	for k, gv := range got {
 		if _, ok := want[k]; !ok {
-			return d.violation("%s of tenant %d: the list contains %s = %s which is not stored (deleted, never written, or another tenant's)", kind, t, short(k), canon(gv))
+			return d.violation("%s of tenant %d: the list contains %s = %s which is not stored (deleted, never written, or another tenant's)", kind, t, short(k), brief(gv))
 		}
 	}
 	return nil
